@@ -363,7 +363,7 @@ func init() {
 					for k := range ops {
 						ops[k] = c11FullAlphabet[r.Intn(len(c11FullAlphabet))]
 					}
-					c11RunSeq(p, ops, o)
+					o.Unit(fmt.Sprint(ops), func(o *vh.Out) { c11RunSeq(p, ops, o) })
 					o.Eval(1)
 					o.Distinct(fmt.Sprintf("%v", ops))
 				}
@@ -379,7 +379,7 @@ func init() {
 					for k, x := range idx {
 						ops[k] = c11SeqAlphabet[x]
 					}
-					c11RunSeq(p, ops, o)
+					o.Unit(fmt.Sprint(ops), func(o *vh.Out) { c11RunSeq(p, ops, o) })
 					n++
 					return
 				}
